@@ -5,6 +5,7 @@ import (
 	"os"
 
 	"github.com/modernizing/coca/pkg/application/api"
+	"github.com/modernizing/coca/pkg/domain/api_domain"
 	"github.com/modernizing/coca/pkg/domain/core_domain"
 )
 
@@ -17,6 +18,34 @@ func apiFamily(c map[string]json.RawMessage) (interface{}, error) {
 	}
 	if err != nil {
 		return nil, err
+	}
+	if boolean(c, "cli") {
+		// `coca analysis -p dir` then `coca api -f -p dir`: coca_reporter/apis.json
+		work, err := newWork()
+		if err != nil {
+			return nil, err
+		}
+		defer os.RemoveAll(work)
+		if _, err := cocaCli(work, "analysis", "-p", dir); err != nil {
+			return nil, err
+		}
+		if _, err := cocaCli(work, "api", "-f", "-p", dir); err != nil {
+			return nil, err
+		}
+		b, err := getReport(work, "apis.json")
+		if err != nil {
+			return nil, err
+		}
+		var apis []api_domain.RestAPI
+		if err := json.Unmarshal(b, &apis); err != nil {
+			return map[string]interface{}{"reportUnreadable": err.Error()}, nil
+		}
+		out := []map[string]string{}
+		for _, a := range apis {
+			out = append(out, map[string]string{"Uri": a.Uri, "HttpMethod": a.HttpMethod, "MethodName": a.MethodName,
+				"RequestBodyClass": a.RequestBodyClass, "PackageName": a.PackageName, "ClassName": a.ClassName})
+		}
+		return map[string]interface{}{"apis": out}, nil
 	}
 	app := new(api.JavaApiApp)
 	apis := app.AnalysisPath(dir, nil, map[string]core_domain.CodeDataStruct{}, map[string]string{})
